@@ -22,7 +22,7 @@ from sim.world import Session, classify, exc_signature, reference_world
 
 PROPERTY = "C08"
 SESSIONS = {"quick": 120, "thorough": 3000}
-BUDGET_S = {"quick": 80, "thorough": 1500}
+BUDGET_S = {"quick": 110, "thorough": 1500}
 CAP_S = {"quick": 240, "thorough": 480}
 RULE = ("one session = one generated recipe: transcripts of every target are compared across (second build, rebuild after drop+GC, pristine "
         "process, 2 other PYTHONHASHSEEDs, unrelated history, reversed construction order) and up to 3 single-change siblings are built after "
